@@ -1,9 +1,16 @@
 import H2.Huffman.Spec
-/-! Dispatch of the line protocol to the executable models. -/
+import H2.Hpack.Drv
+import H2.Frame.Drv
+import H2.Server.Drv
+import H2.Client.Drv
+/-! Dispatch of the line protocol to the executable models. Each area owns its `Drv` module. -/
 namespace H2.Driver
 
 structure State where
-  dummy : Nat := 0
+  hpack : Hpack.Drv.State := .init
+  frame : Frame.Drv.State := .init
+  srv : Server.Drv.State := .init
+  cli : Client.Drv.State := .init
 
 def State.init : State := {}
 
@@ -12,7 +19,9 @@ def optHex : Option Bytes → String
   | none => "err"
 
 def step (st : State) (line : String) : State × String :=
-  match line.splitOn " " with
+  if line.isEmpty || line.startsWith "#" then (st, "#") else
+  let args := line.splitOn " "
+  match args with
   | ["huff.enc", h] =>
     match fromHex h with
     | some b => (st, "ok " ++ hexOrDash (Huffman.encode b))
@@ -21,6 +30,16 @@ def step (st : State) (line : String) : State × String :=
     match fromHex h with
     | some b => (st, optHex (Huffman.decode b))
     | none => (st, "bad-op")
-  | _ => (st, "bad-op")
+  | op :: _ =>
+    if op.startsWith "hpack." then
+      let (s, r) := Hpack.Drv.step st.hpack args; ({ st with hpack := s }, r)
+    else if op.startsWith "frame." then
+      let (s, r) := Frame.Drv.step st.frame args; ({ st with frame := s }, r)
+    else if op == "srv" then
+      let (s, r) := Server.Drv.step st.srv args; ({ st with srv := s }, r)
+    else if op == "cli" then
+      let (s, r) := Client.Drv.step st.cli args; ({ st with cli := s }, r)
+    else (st, "bad-op")
+  | [] => (st, "bad-op")
 
 end H2.Driver
